@@ -55,6 +55,10 @@ type node struct {
 	data     string
 	target   string
 	children map[string]*node
+	// volatile: something the action left behind rewrites the file in
+	// place (same length, contents alt) while it is being uploaded.
+	volatile bool
+	alt      string
 }
 
 func newDir() *node { return &node{kind: kDir, children: map[string]*node{}} }
@@ -128,6 +132,9 @@ func (n *node) render() []string {
 				if c.exec {
 					x = "+x"
 				}
+				if c.volatile {
+					x += " rewritten-during-upload"
+				}
 				out = append(out, fmt.Sprintf("%s F%s %q", p, x, c.data))
 			case kSymlink:
 				out = append(out, fmt.Sprintf("%s L %q", p, c.target))
@@ -149,7 +156,8 @@ func equalTrees(a, b *node) bool {
 	}
 	switch a.kind {
 	case kFile:
-		return a.exec == b.exec && a.data == b.data
+		same := a.data == b.data || (a.volatile && a.alt == b.data) || (b.volatile && b.alt == a.data)
+		return a.exec == b.exec && same
 	case kSymlink:
 		// Up to POSIX equivalence: the naive build directory creates input
 		// symlinks through a path builder that drops "." and "" components.
@@ -186,6 +194,8 @@ type fakeCAS struct {
 	puts  map[string]int
 	// Put calls whose contents did not match the digest they were stored under.
 	corrupt []string
+	// Put calls refused because their context was already done.
+	refused int
 }
 
 func newFakeCAS() *fakeCAS {
@@ -197,6 +207,9 @@ func (c *fakeCAS) GetCapabilities(ctx context.Context, instanceName digest.Insta
 }
 
 func (c *fakeCAS) Get(ctx context.Context, d digest.Digest) buffer.Buffer {
+	if err := ctx.Err(); err != nil {
+		return buffer.NewBufferFromError(status.FromContextError(err).Err())
+	}
 	data, ok := c.blobs[casKey(d.GetHashString(), d.GetSizeBytes())]
 	if !ok {
 		return buffer.NewBufferFromError(status.Errorf(codes.NotFound, "blob %s not found", d))
@@ -209,6 +222,12 @@ func (c *fakeCAS) GetFromComposite(ctx context.Context, parentDigest, childDiges
 }
 
 func (c *fakeCAS) Put(ctx context.Context, d digest.Digest, b buffer.Buffer) error {
+	// Like a gRPC client: nothing is stored on a context that is done.
+	if err := ctx.Err(); err != nil {
+		b.Discard()
+		c.refused++
+		return status.FromContextError(err).Err()
+	}
 	data, err := b.ToByteSlice(64 << 20)
 	if err != nil {
 		return err
@@ -265,6 +284,8 @@ type fakeFS struct {
 	useAfterClose []string
 	// Every path (joined) that was touched by a mutating call.
 	mutations []string
+	// The logger handed over with InstallHooks (fatal I/O errors).
+	errorLogger util.ErrorLogger
 }
 
 type fakeDir struct {
@@ -377,7 +398,9 @@ func (d *fakeDir) RemoveAll(name path.Component) error {
 	return nil
 }
 
-func (d *fakeDir) InstallHooks(filePool pool.FilePool, errorLogger util.ErrorLogger) {}
+func (d *fakeDir) InstallHooks(filePool pool.FilePool, errorLogger util.ErrorLogger) {
+	d.fs.errorLogger = errorLogger
+}
 
 // MergeDirectoryContents instantiates a Directory hierarchy stored in the
 // fake CAS (only used by the LocalBuildExecutor rig).
